@@ -107,3 +107,15 @@ Lemma tie_inspected k : t_inspected k = inspected_cells k.
 Proof.
   destruct k as [|f|f|f|g s d|f a|f| | | |]; cbn; rewrite ?app_nil_r; try reflexivity.
 Qed.
+
+(** the per-cell body of the rewrite loop, with its [except ValueError] handler: an empty cell is skipped and the
+    REMAINING cells of the item are still visited *)
+Lemma tie_rewrite_cells old new cells : forall st, t_rewrite_cells old new cells st = rewrite_cells old new cells st.
+Proof.
+  unfold rewrite_cells. induction cells as [|c r IH]; intros st; [reflexivity|].
+  cbn [t_rewrite_cells fold_left]. unfold rewrite_cell at 2.
+  destruct (get c st) as [|x|] eqn:E; cbn [cellval_eqb]; rewrite ?E; cbn [cellval_eqb].
+  - apply IH.
+  - destruct (Nat.eqb x old); apply IH.
+  - apply IH.
+Qed.
